@@ -26,21 +26,27 @@ impl<U: TimeUnitTrait> DateTime<U> {
     pub fn into_unit<T: TimeUnitTrait>(self) -> DateTime<T> {
         if U::unit() == T::unit() {
             unsafe { std::mem::transmute::<DateTime<U>, DateTime<T>>(self) }
+        } else if self.is_nat() {
+            DateTime::nat()
         } else {
             use TimeUnit::*;
+            // to a coarser unit: floor, so that instants before 1970 also move toward the past
+            // (as chrono's timestamp functions do); to a finer unit: NaT if it does not fit
+            let coarser = |ratio: i64| DateTime::new(self.0.div_euclid(ratio));
+            let finer = |ratio: i64| self.0.checked_mul(ratio).map_or(DateTime::nat(), DateTime::new);
             match (U::unit(), T::unit()) {
-                (Nanosecond, Microsecond) => DateTime::new(self.0 / NANOS_PER_MICRO),
-                (Nanosecond, Millisecond) => DateTime::new(self.0 / NANOS_PER_MILLI),
-                (Nanosecond, Second) => DateTime::new(self.0 / NANOS_PER_SEC),
-                (Microsecond, Millisecond) => DateTime::new(self.0 / MICROS_PER_MILLI),
-                (Microsecond, Second) => DateTime::new(self.0 / MICROS_PER_SEC),
-                (Millisecond, Second) => DateTime::new(self.0 / MILLIS_PER_SEC),
-                (Microsecond, Nanosecond) => DateTime::new(self.0 * NANOS_PER_MICRO),
-                (Millisecond, Nanosecond) => DateTime::new(self.0 * NANOS_PER_MILLI),
-                (Second, Nanosecond) => DateTime::new(self.0 * NANOS_PER_SEC),
-                (Millisecond, Microsecond) => DateTime::new(self.0 * MICROS_PER_MILLI),
-                (Second, Microsecond) => DateTime::new(self.0 * MICROS_PER_SEC),
-                (Second, Millisecond) => DateTime::new(self.0 * MILLIS_PER_SEC),
+                (Nanosecond, Microsecond) => coarser(NANOS_PER_MICRO),
+                (Nanosecond, Millisecond) => coarser(NANOS_PER_MILLI),
+                (Nanosecond, Second) => coarser(NANOS_PER_SEC),
+                (Microsecond, Millisecond) => coarser(MICROS_PER_MILLI),
+                (Microsecond, Second) => coarser(MICROS_PER_SEC),
+                (Millisecond, Second) => coarser(MILLIS_PER_SEC),
+                (Microsecond, Nanosecond) => finer(NANOS_PER_MICRO),
+                (Millisecond, Nanosecond) => finer(NANOS_PER_MILLI),
+                (Second, Nanosecond) => finer(NANOS_PER_SEC),
+                (Millisecond, Microsecond) => finer(MICROS_PER_MILLI),
+                (Second, Microsecond) => finer(MICROS_PER_SEC),
+                (Second, Millisecond) => finer(MILLIS_PER_SEC),
                 // currently unit should only in [Nanosecond, Microsecond, Millisecond, Second]
                 (u1, u2) => unimplemented!("convert from {:?} to {:?} is not implemented", u1, u2),
             }
